@@ -164,6 +164,40 @@ def _task_idle(tr) -> bool:
     return t is None or t.done()
 
 
+def _hs_split(rng: random.Random, n: int) -> dict | None:
+    """how the n handshake bytes (4-byte ticket / 8-byte offset) arrive: None = one segment, already there"""
+    r = rng.random()
+    if r < 0.35:
+        return None
+    if r < 0.55:
+        cuts = [1] * n                                   # byte-wise
+    elif r < 0.7:
+        cuts = [1, n - 1]
+    elif r < 0.8:
+        cuts = [n - 1, 1]
+    else:
+        cuts, left = [], n
+        while left > 0:
+            c = rng.randint(1, left)
+            cuts.append(c)
+            left -= c
+    return {'cuts': cuts, 'gap': rng.choice([0, 0, 0.01, 0.5])}
+
+
+async def _feed_split(writer, data: bytes, hs: dict):
+    """deliver `data` in the segments of `hs`, the reader runs (and `gap` virtual seconds pass) in between"""
+    pos = 0
+    for c in hs['cuts']:
+        writer.write(data[pos:pos + c])
+        pos += c
+        await settle()
+        if hs.get('gap'):
+            await advance(hs['gap'])
+    if pos < len(data):
+        writer.write(data[pos:])
+        await settle()
+
+
 # ------------------------------------------------------------------------------------------------
 # dl cases
 # ------------------------------------------------------------------------------------------------
@@ -241,7 +275,9 @@ async def _dl_main(loop, case: dict, tmp: str):
         conn, lw_new, rr, rw = _file_conn(net, fnet, incoming=True)
         if att.get('lim'):
             conn.download_rate_limiter = LimitedRateLimiter(att['lim'])
-        rw.write(struct.pack('<I', ticket))
+        hs = att.get('hs') if not att.get('cutinit') else None
+        if hs is None:
+            rw.write(struct.pack('<I', ticket))
         req = PeerTransferRequest.Request(direction=1, ticket=ticket, filename='music\\f.bin', filesize=ann)
         await tm._on_peer_transfer_request(req, peer)
         await settle()
@@ -256,7 +292,17 @@ async def _dl_main(loop, case: dict, tmp: str):
             await settle()
             continue
         lw = lw_new
-        await tm._on_peer_initialized(PeerInitializedEvent(conn, requested=False))
+        if hs is None:
+            await tm._on_peer_initialized(PeerInitializedEvent(conn, requested=False))
+        else:
+            # the ticket trickles in while `_on_peer_initialized` is already waiting for it
+            init_task = loop.create_task(tm._on_peer_initialized(PeerInitializedEvent(conn, requested=False)))
+            await settle()
+            await _feed_split(rw, struct.pack('<I', ticket), hs)
+            try:
+                await init_task
+            except Exception as e:      # the real EventBus logs and swallows what a listener raises
+                obs.append(f'INIT-HANDLER-EXC {type(e).__name__}')
         if att.get('cutinit'):
             rw.reset()
         await settle()
@@ -283,8 +329,13 @@ async def _dl_main(loop, case: dict, tmp: str):
         obs.append(_dl_snapshot(tr, off, lw, writes))
         if got_offset is None:
             obs[-1] += ' NO-OFFSET-ON-WIRE'
+            # monitor: request accepted, every byte of the ticket delivered, no fault — the offset must go out
+            V('C04-handshake-not-completed', f'attempt {ai}: the complete ticket was delivered'
+              f'{" in segments " + str(hs["cuts"]) if hs else ""} without any fault, but the downloader sent no offset '
+              f'(download is {_state_name(tr)})', observed=_state_name(tr), required='offset on the wire, DOWNLOADING')
             rw.close()
             await settle()
+            await advance(70)
             continue
         # the sender's stream for this attempt
         if att['mode'] == 'from0':
@@ -440,13 +491,32 @@ async def _ul_main(loop, case: dict, tmp: str):
         conn.upload_rate_limiter = gate
         net.next_connection = conn
         off = att['off']
-        rw.write(struct.pack('<Q', off))
+        hs = att.get('hs')
+        if hs is None:
+            rw.write(struct.pack('<Q', off))
         task = loop.create_task(tm._initialize_upload(tr))
         tr._transfer_task = task
         task.add_done_callback(tr._transfer_task_complete)
         await settle()
+        if hs is not None:
+            # the uploader has sent the ticket and waits for the offset, which trickles in
+            await _feed_split(rw, struct.pack('<Q', off), hs)
         lines.append(f"ubegin {off} {1 if att.get('lim') else 0}")
         obs.append(_ul_snapshot(tr, off, lw, gate))
+        if _state_name(tr) == 'INITIALIZING' or (tr.is_processing() and _task_idle(tr)):
+            # monitor: all 8 offset bytes were delivered, nothing failed — the upload must be under way
+            exc = task.exception() if task.done() and not task.cancelled() else None
+            V('C04-stuck-processing', f'attempt {ai}: the complete offset ({off}) was delivered'
+              f'{" in segments " + str(hs["cuts"]) if hs else ""} without any fault, but the upload is left in '
+              f'{_state_name(tr)} ' + ('with no task' if _task_idle(tr) else 'still waiting') +
+              (f' ({type(exc).__name__}: {exc})' if exc is not None else '') +
+              ' — it is never retried', observed=_state_name(tr), required='UPLOADING')
+            if not _task_idle(tr):
+                task.cancel()
+                await settle()
+            rw.close()
+            await settle()
+            continue        # the next attempt re-queues it (INITIALIZING -> QUEUED exists)
         peer = {'closed': False, 'reset': False}
         flags = {'early': False}
 
@@ -602,9 +672,10 @@ def _fill_segs(rng, att, N, off_guess, cut=None):
 
 def _gen_dl_cut(rng: random.Random, N: int, k: int, lim: int, end: str) -> dict:
     """cut after k bytes, then a fault-free attempt"""
-    a1 = {'ann': N, 'lim': lim, 'mode': 'honest', 'segs': _segmentation(rng, k), 'end': end}
+    a1 = {'ann': N, 'lim': lim, 'mode': 'honest', 'segs': _segmentation(rng, k), 'end': end, 'hs': _hs_split(rng, 4)}
     a2 = _fault_free(rng, N, lim=rng.choice([0, lim]))
     a2['segs'] = _segmentation(rng, N - k)
+    a2['hs'] = _hs_split(rng, 4)
     return {'kind': 'dl', 'flen': N, 'mul': rng.choice([1, 3, 7, 11]), 'add': rng.randint(0, 255), 'pre': None,
             'attempts': [a1, a2], 'gen': 'cut'}
 
@@ -661,6 +732,8 @@ def _gen_dl_random(rng: random.Random) -> dict:
             have = None if not honest else have
             if have is None:
                 have = 0
+        if not a.get('cutinit'):
+            a['hs'] = _hs_split(rng, 4)
         atts.append(a)
     return {'kind': 'dl', 'flen': N, 'mul': mul, 'add': add, 'pre': pre, 'attempts': atts, 'gen': 'random'}
 
@@ -688,7 +761,7 @@ def _gen_ul(rng: random.Random) -> dict:
         else:
             k = rng.randint(0, max(0, need - 1))
             ops = ['chunk'] * k + ['close' if kind == 'early-close' else 'reset'] + ['chunk'] * rng.choice([1, 2])
-        atts.append({'off': off, 'lim': lim, 'ops': ops})
+        atts.append({'off': off, 'lim': lim, 'ops': ops, 'hs': _hs_split(rng, 8)})
     return {'kind': 'ul', 'flen': N, 'mul': rng.choice([1, 3, 7, 11]), 'add': rng.randint(0, 255), 'attempts': atts,
             'gen': 'ul'}
 
@@ -738,7 +811,8 @@ class C04(Property):
             'after k bytes, break before the offset went out, dishonest sender: ignores the offset / extra bytes / '
             'other announced size / stops early}, optional pre-existing local file (prefix of F, all of F, foreign, '
             'longer than announced), segmentations {whole, byte-wise, 127/128/129/8191/8192/8193-sized, halves, random, '
-            'bursts}, download limiter off / 1 / 50 / 4096 KiB/s; ul cases: same sizes, offsets {0,1,size-1,size,'
+            'bursts}, the 4-byte ticket arriving whole / byte-wise / split anywhere (0..0.5 s between the pieces), download '
+            'limiter off / 1 / 50 / 4096 KiB/s; ul cases (8-byte offset arriving whole / byte-wise / split anywhere): same sizes, offsets {0,1,size-1,size,'
             'size+1,beyond,random,127..129}, limiter on/off, ops {one send_file iteration, write error, peer close, peer '
             'reset} incl. re-attempts after FAILED/COMPLETE; pair cases (40 quick / 400 thorough): two full clients + '
             'simulated server with per-connection latencies, file connection reset after k bytes 0..3 times (the '
@@ -767,7 +841,10 @@ class C04(Property):
                 'offset on (offset = local file size, bytes_transfered = offset, failure to send the offset), '
                 '_download_file (remaining = filesize - offset, outcome by is_transfered), _initialize_upload from the '
                 'received offset on, _upload_file (seek, send loop, write error, EOF wait, outcome by is_transfered), '
-                'Transfer.is_transfered / progress callback. Exercised, not modelled: ticket hand-shake, aiofiles, '
+                'Transfer.is_transfered / progress callback. Exercised, not modelled: the hand-shake readers '
+                'PeerConnection.receive_transfer_ticket / receive_transfer_offset and _on_peer_initialized (ticket and '
+                'offset delivered whole, byte-wise or split at any point, with time passing in between — the model '
+                'sees their concatenation), aiofiles, '
                 'the transfer state classes, rate limiter timing (C20), naming (C09), full clients + server + retry '
                 'control plane (pair cases)')
 
@@ -830,8 +907,12 @@ class C04(Property):
                     res.count('dl-attempt:end=' + ('cutinit' if a.get('cutinit') else a['end']))
                     res.count('dl-attempt:mode=' + a['mode'] + ('' if a['ann'] == c['flen'] else '+other-size'))
                     res.count('dl-attempt:limiter=' + ('on' if a.get('lim') else 'off'))
+                    res.count('dl-attempt:ticket=' + ('whole' if not a.get('hs') else 'bytewise' if
+                                                      a['hs']['cuts'] == [1] * 4 else 'split'))
                 elif c['kind'] == 'ul':
                     res.count('ul-attempt:limiter=' + ('on' if a.get('lim') else 'off'))
+                    res.count('ul-attempt:offset-bytes=' + ('whole' if not a.get('hs') else 'bytewise' if
+                                                            a['hs']['cuts'] == [1] * 8 else 'split'))
                     res.count('ul-attempt:offset=' + ('0' if a['off'] == 0 else 'size' if a['off'] == c['flen'] else
                                                       'beyond' if a['off'] > c['flen'] else 'inside'))
                     for o in set(a['ops']):
@@ -843,7 +924,10 @@ class C04(Property):
                 res.nontrivial_keys.add(common.sha(c))
             res.violations += vs
             if any(o and (o.startswith('HARNESS-EXC')) for o in obs):
+                # the real code raised where the harness drives it directly: never silent — the case counts as
+                # a broken correspondence (failing-input search follows)
                 res.notes.append(f'harness exception: {obs[-1][:300]} on {str(c)[:200]}')
+                res.disagreements.append(Disagreement(c, obs[-1][:300], None, 'exception while driving the real code'))
                 continue
             if model is not None and c['kind'] != 'pair':
                 res.traces_validated += 1
